@@ -3,6 +3,7 @@
 from __future__ import annotations
 
 import ast
+import copy
 
 from gv import rules
 from gv.astutil import AnalysisError
@@ -465,17 +466,143 @@ def check_equilibrium(ctx: Ctx) -> None:
     ctx.ob("17.5-equilibrium", con, bool(ok), "the equilibrium MDA must be executed at the current value of the design space (as a dictionary); without it the disciplines run at their own defaults and the stored couplings belong to another design point", node=(ex or [f])[0], stmt="MDA executed at design_space.get_current_value(as_dict=True)")
     sets = [c for c in walk_body(f) if isinstance(c, ast.Call) and last_attr(c) == "set_current_variable"]
     loops = [s for s in stmts_of(f) if isinstance(s, ast.For) and sets and sets[0] in list(ast.walk(s))]
-    ok = len(sets) == 1 and len(loops) == 1 and norm_stmt(loops[0].iter) == "self.all_couplings" and dotted(sets[0].args[0]) == dotted(loops[0].target)
+    ok = len(sets) == 1 and len(loops) == 1 and len(ex) == 1
     if ok:
-        val = sets[0].args[1]
-        ldefs = {s.targets[0].id: s.value for s in ast.walk(loops[0]) if isinstance(s, ast.Assign) and isinstance(s.targets[0], ast.Name)}
-        val = ldefs.get(val.id, val) if isinstance(val, ast.Name) else val
-        ok = isinstance(val, ast.Subscript) and dotted(val.slice) == dotted(loops[0].target)
+        names, key, bound = _named_values(f, loops[0])
+        which, val = arg_or_kw(sets[0], 0, "name"), arg_or_kw(sets[0], 1, "current_value")
+        ok = key is not None and which is not None and val is not None and dotted(which) == key and all(norm_stmt(a_) == "self.all_couplings" for a_ in names)
+    if ok:
+        if isinstance(val, ast.Name) and val.id in bound:
+            vals = bound[val.id]
+        else:
+            ldefs = {s.targets[0].id: s.value for s in ast.walk(loops[0]) if isinstance(s, ast.Assign) and isinstance(s.targets[0], ast.Name)}
+            vals = _alts(f, val)
+            if isinstance(val, ast.Name) and all(isinstance(v_, ast.Name) for v_ in vals) and val.id in ldefs:
+                vals = _alts(f, ldefs[val.id])
+        # the MDA output: what the executed MDA returned, directly or through a local bound to it once
+        results = {norm_stmt(a_) for a_ in _alts(f, ex[0])}
+        for s_ in stmts_of(f):
+            if isinstance(s_, ast.Assign) and len(s_.targets) == 1 and isinstance(s_.targets[0], ast.Name) and s_.value is ex[0] and len([x for x in ast.walk(f) if isinstance(x, ast.Name) and x.id == s_.targets[0].id and isinstance(x.ctx, ast.Store)]) == 1:
+                results.add(s_.targets[0].id)
+        ok = bool(vals) and all(isinstance(v_, ast.Subscript) and dotted(v_.slice) == key and norm_stmt(v_.value) in results for v_ in vals)
     ctx.ob("17.5-equilibrium", con, bool(ok), "every coupling of the design space takes the MDA output of the same name", node=(sets or [f])[0], stmt="design_space[coupling] = MDA output[coupling]")
+
+
+def _named_values(f: ast.AST, loop: ast.For) -> tuple[list[ast.AST], str | None, dict[str, list[ast.AST]]]:
+    """(alternatives of the iterable of names, loop variable holding the name, {loop variable: its value written with
+    the name variable}) of a loop that visits names: ``for k in names`` or, with the values computed beforehand,
+    ``for k, v in {k2: e(k2) for k2 in names}.items()`` / ``for k, v in [(k2, e(k2)) for k2 in names]``."""
+    if isinstance(loop.target, ast.Name):
+        return _alts(f, loop.iter), loop.target.id, {}
+    if not (isinstance(loop.target, ast.Tuple) and len(loop.target.elts) == 2 and all(isinstance(x, ast.Name) for x in loop.target.elts)):
+        return [], None, {}
+    k, v = (x.id for x in loop.target.elts)
+    it = loop.iter
+    pairs = it.func.value if isinstance(it, ast.Call) and isinstance(it.func, ast.Attribute) and it.func.attr == "items" and not it.args and not it.keywords else None
+    names, values = [], []
+    for a_ in _alts(f, pairs if pairs is not None else it):
+        if not (isinstance(a_, (ast.DictComp, ast.ListComp, ast.GeneratorExp, ast.SetComp)) and isinstance(a_, ast.DictComp) == (pairs is not None) and len(a_.generators) == 1):
+            return [], None, {}
+        g = a_.generators[0]
+        if isinstance(a_, ast.DictComp):
+            kk, vv = a_.key, a_.value
+        elif isinstance(a_.elt, ast.Tuple) and len(a_.elt.elts) == 2:
+            kk, vv = a_.elt.elts
+        else:
+            return [], None, {}
+        if g.ifs or g.is_async or not isinstance(g.target, ast.Name) or dotted(kk) != g.target.id or k == v:
+            return [], None, {}
+
+        class R(ast.NodeTransformer):
+            def visit_Name(self, n):  # noqa: N802
+                return ast.copy_location(ast.Name(id=k, ctx=n.ctx), n) if n.id == g.target.id else n
+
+        names.append(g.iter)
+        values.append(R().visit(copy.deepcopy(vv)))
+    return names, k, {v: values}
 
 
 _DO = "formulations/disciplinary_opt.py"
 _DAD = "core/mdo_functions/discipline_adapter.py"
+
+
+_COLLECTION = ("set", "frozenset", "list", "tuple", "sorted")
+
+
+def _common_operands(e: ast.AST) -> list[ast.AST]:
+    """The collections whose common elements ``e`` holds (``e`` itself when it is not an intersection):
+    ``a & b``, ``a.intersection(b, ...)``, ``set.intersection(a, b, ...)``, ``{x for x in a if x in b}`` (also a list
+    or a generator), each possibly wrapped in ``set(...)`` / ``frozenset`` / ``list`` / ``tuple`` / ``sorted``."""
+    if isinstance(e, ast.Call) and dotted(e.func) in _COLLECTION and len(e.args) == 1 and not e.keywords and not isinstance(e.args[0], ast.Starred):
+        return _common_operands(e.args[0])
+    if isinstance(e, ast.BinOp) and isinstance(e.op, ast.BitAnd):
+        return _common_operands(e.left) + _common_operands(e.right)
+    if isinstance(e, ast.Call) and isinstance(e.func, ast.Attribute) and e.func.attr == "intersection" and e.args and not e.keywords and not any(isinstance(a_, ast.Starred) for a_ in e.args):
+        own = [] if dotted(e.func.value) in ("set", "frozenset") else [e.func.value]
+        return [o for a_ in [*own, *e.args] for o in _common_operands(a_)]
+    if isinstance(e, (ast.SetComp, ast.ListComp, ast.GeneratorExp)) and len(e.generators) == 1:
+        g = e.generators[0]
+        if isinstance(g.target, ast.Name) and not g.is_async and dotted(e.elt) == g.target.id and g.target.id not in names_in(g.iter):
+            others = []
+            for c in g.ifs:
+                cp = compare_parts(c)
+                if cp is None or cp[1] is not ast.In or dotted(cp[0]) != g.target.id or g.target.id in names_in(cp[2]):
+                    return [e]
+                others.append(cp[2])
+            return [o for a_ in [g.iter, *others] for o in _common_operands(a_)]
+    return [e]
+
+
+def _kept_operands(f: ast.AST, e: ast.AST, use: ast.AST) -> list[list[ast.AST]]:
+    """The alternatives of ``e`` (an argument of the call ``use`` in ``f``) as lists of intersected collections, the
+    locals unfolded; a local set narrowed in place (``v = set(a)`` then ``v &= b`` / ``v.intersection_update(b)``,
+    every step on every path to ``use``) is the intersection of its initial value and of what narrowed it."""
+    cfg = cfg_of(f)
+    out = []
+    for a_ in _alts(f, e):
+        ops = []
+        for o in _common_operands(a_):
+            steps = _narrowed(f, cfg, o.id, use) if isinstance(o, ast.Name) else None
+            if steps:
+                ops += [x for s_ in steps for b_ in _alts(f, s_) for x in _common_operands(b_)]
+            else:
+                ops.append(o)
+        out.append(ops)
+    return out
+
+
+def _narrowed(f: ast.AST, cfg, var: str, use: ast.AST) -> list[ast.AST] | None:
+    """[initial value, narrowing operand, ...] of the local ``var`` when ``use`` runs, or None when ``var`` is not a
+    local bound once and then only narrowed on every path to ``use``."""
+    u = cfg.node_of(use)
+    binds = [s for s in stmts_of(f) if isinstance(s, ast.Assign) and any(var in names_in(t) for t in s.targets)]
+    if len(binds) != 1 or len(binds[0].targets) != 1 or not isinstance(binds[0].targets[0], ast.Name) or not cfg.dominates(cfg.node_of(binds[0]), u):
+        return None
+    b = cfg.node_of(binds[0])
+    out = [binds[0].value]
+    steps = []
+    for s in stmts_of(f):
+        if s is binds[0] or not cfg.has(s):
+            continue
+        n = cfg.node_of(s)
+        touched = [x for x in ast.walk(s) if isinstance(x, ast.Name) and x.id == var and isinstance(x.ctx, (ast.Store, ast.Del))]
+        touched += [x for x in ast.walk(s) if isinstance(x, ast.Call) and isinstance(x.func, ast.Attribute) and dotted(x.func.value) == var and (x.func.attr.endswith("update") or x.func.attr in ("add", "remove", "discard", "pop", "clear", "append", "extend", "insert", "sort", "reverse"))]
+        if not touched or not cfg.reachable(n, u) or n == u:
+            continue
+        if isinstance(s, ast.AugAssign) and isinstance(s.op, ast.BitAnd) and dotted(s.target) == var and var not in names_in(s.value):
+            ops = [s.value]
+        elif isinstance(s, ast.Expr) and isinstance(s.value, ast.Call) and isinstance(s.value.func, ast.Attribute) and s.value.func.attr == "intersection_update" and dotted(s.value.func.value) == var and s.value.args and not s.value.keywords and not any(isinstance(a_, ast.Starred) or var in names_in(a_) for a_ in s.value.args):
+            ops = list(s.value.args)
+        else:
+            return None
+        if not (cfg.dominates(b, n) and cfg.dominates(n, u)):
+            return None
+        steps.append((n, ops))
+    if not steps:
+        return None
+    for _, ops in steps:
+        out += ops
+    return out
 
 
 def check_disciplinary_design_space(ctx: Ctx) -> None:
@@ -485,13 +612,155 @@ def check_disciplinary_design_space(ctx: Ctx) -> None:
     f = ctx.index.method(_DO, "DisciplinaryOpt", "_filter_design_space")
     con = cname(_DO, "DisciplinaryOpt", "_filter_design_space")
     calls = [c for c in walk_body(f) if isinstance(c, ast.Call) and last_attr(c) == "get_all_inputs"]
-    ctx.need(len(calls) == 1 and calls[0].args, "DisciplinaryOpt._filter_design_space: get_all_inputs(...) not found")
-    alts = unfolded(f, calls[0].args[0]) or [calls[0].args[0]]
+    ctx.need(len(calls) == 1 and arg_or_kw(calls[0], 0, "disciplines") is not None, "DisciplinaryOpt._filter_design_space: get_all_inputs(...) not found")
+    which = arg_or_kw(calls[0], 0, "disciplines")
+    alts = _alts(f, which)
     ok = all(isinstance(a_, ast.Call) and norm_stmt(a_.func) == "self.get_top_level_disciplines" for a_ in alts)
     ctx.ob("17.6-disciplinary-design-space", con, ok, "the variables kept are the inputs of the top-level disciplines (get_top_level_disciplines()): with all the disciplines, the weak couplings present in the design space stay design variables although the chain computes them (spurious columns, a design space that differs from MDF's)", node=calls[0], stmt="inputs of the top-level disciplines")
-    filt = [c for c in walk_body(f) if isinstance(c, ast.Call) and last_attr(c) == "filter"]
-    ok = len(filt) == 1 and filt[0].args and all("intersection" in norm_stmt(a_) or "&" in norm_stmt(a_) for a_ in (unfolded(f, filt[0].args[0]) or [filt[0].args[0]]))
+    filt = [c for c in walk_body(f) if isinstance(c, ast.Call) and last_attr(c) == "filter" and isinstance(c.func, ast.Attribute)]
+    kept = arg_or_kw(filt[0], 0, "keep_variables") if len(filt) == 1 else None
+    ok = kept is not None
+    if ok:
+        spaces = {norm_stmt(a_) for a_ in _alts(f, filt[0].func.value)}
+
+        def role(o: ast.AST) -> str:
+            if isinstance(o, ast.Call) and last_attr(o) == "get_all_inputs":
+                return "inputs"
+            t = norm_stmt(o)
+            return "design variables" if t in spaces or (t.endswith(".variable_names") and t[: -len(".variable_names")] in spaces) else "?"
+
+        found = _kept_operands(f, kept, filt[0])
+        ok = bool(found) and all({role(o) for o in ops} == {"inputs", "design variables"} for ops in found)
     ctx.ob("17.6-disciplinary-design-space", con, ok, "the design space is restricted to the variables that are both inputs and design variables", node=(filt or [f])[0], stmt="design_space.filter(inputs & design variables)")
+
+
+def _mapping_parts(e: ast.AST) -> list[ast.AST]:
+    """The mappings merged by the expression ``e``, lowest precedence first (the last one wins on a common key):
+    ``a | b``, ``{**a, **b}``, ``dict(a)``, ``dict(a, **b)``, ``a.copy()``, ``a.items()`` (as the argument of ``dict``
+    / ``update``), ``ChainMap(b, a)``; anything else is one mapping."""
+    if isinstance(e, ast.BinOp) and isinstance(e.op, ast.BitOr):
+        return _mapping_parts(e.left) + _mapping_parts(e.right)
+    if isinstance(e, ast.Dict) and e.keys and all(k is None for k in e.keys):
+        return [p_ for v in e.values for p_ in _mapping_parts(v)]
+    if isinstance(e, ast.Call) and dotted(e.func) == "dict" and len(e.args) <= 1 and (e.args or e.keywords) and all(k.arg is None for k in e.keywords) and not any(isinstance(a_, ast.Starred) for a_ in e.args):
+        return [p_ for v in [*e.args, *(k.value for k in e.keywords)] for p_ in _mapping_parts(v)]
+    if isinstance(e, ast.Call) and (dotted(e.func) or "").split(".")[-1] == "ChainMap" and e.args and not e.keywords and not any(isinstance(a_, ast.Starred) for a_ in e.args):
+        return [p_ for v in reversed(e.args) for p_ in _mapping_parts(v)]
+    if isinstance(e, ast.Call) and isinstance(e.func, ast.Attribute) and e.func.attr in ("copy", "items") and not e.args and not e.keywords:
+        return _mapping_parts(e.func.value)
+    return [e]
+
+
+def _input_source(e: ast.AST) -> str:
+    t = norm_stmt(e)
+    if "defaults" in t or "default_input_data" in t:
+        return "defaults"
+    if "get_input_data" in t or "io.data" in t or "local_data" in t:
+        return "local"
+    return "?"
+
+
+def _sources(f: ast.AST, part: ast.AST) -> list[str]:
+    """Where the mappings merged by ``part`` (a node of ``f``; its locals are unfolded) come from, lowest precedence
+    first."""
+    found = [[_input_source(p_) for p_ in _mapping_parts(a_)] for a_ in _alts(f, part)]
+    return found[0] if all(x == found[0] for x in found) else ["?"]
+
+
+def _copied_items(loop: ast.For, var: str) -> ast.AST | None:
+    """``X`` when the loop is ``for k, v in X.items(): var[k] = v`` or ``for k in X: var[k] = X[k]``."""
+    if len(loop.body) != 1 or loop.orelse or not isinstance(loop.body[0], ast.Assign) or len(loop.body[0].targets) != 1:
+        return None
+    t, v = loop.body[0].targets[0], loop.body[0].value
+    if not (isinstance(t, ast.Subscript) and dotted(t.value) == var and isinstance(t.slice, ast.Name)):
+        return None
+    k = t.slice.id
+    it = loop.iter
+    if isinstance(loop.target, ast.Tuple) and len(loop.target.elts) == 2 and all(isinstance(x, ast.Name) for x in loop.target.elts):
+        if loop.target.elts[0].id == k and loop.target.elts[1].id != k and dotted(v) == loop.target.elts[1].id and isinstance(it, ast.Call) and isinstance(it.func, ast.Attribute) and it.func.attr == "items" and not it.args and not it.keywords:
+            return it.func.value
+        return None
+    if isinstance(loop.target, ast.Name) and loop.target.id == k and isinstance(v, ast.Subscript) and dotted(v.slice) == k:
+        src = it.func.value if isinstance(it, ast.Call) and isinstance(it.func, ast.Attribute) and it.func.attr == "keys" and not it.args else it
+        if ast.dump(src) == ast.dump(v.value) and var not in names_in(src):
+            return src
+    return None
+
+
+def _merged_into(f: ast.AST, var: str, use: ast.AST) -> tuple[list[str], ast.AST | None]:
+    """(where the content of the local mapping ``var`` comes from when ``use`` runs, lowest precedence first; its first
+    binding).
+
+    Each step that runs on every path to ``use`` is taken in execution order: ``var = <merge>`` (a merge that names
+    ``var`` itself continues the history), ``var |= m``, ``var.update(m)`` / ``update(**m)`` / ``update(m, **n)``, a
+    loop copying the items of ``m`` one by one.  A step that runs on some paths only cannot establish the defaults
+    (it counts as unknown) but can bring back the local data; any other store into ``var`` is unknown."""
+    cfg = cfg_of(f)
+    u = cfg.node_of(use)
+    steps = []  # (cfg node, kind, parts, statement)
+    consumed = set()
+    for s in stmts_of(f):
+        if id(s) in consumed or not cfg.has(s):
+            continue
+        if isinstance(s, ast.For):
+            src = _copied_items(s, var)
+            if src is not None:
+                consumed.add(id(s.body[0]))
+                steps.append((cfg.node_of(s), "merge", [src], s))
+            continue
+        if isinstance(s, ast.Assign) and any(isinstance(t, ast.Name) and t.id == var for t in s.targets):
+            steps.append((cfg.node_of(s), "assign", _mapping_parts(s.value), s))
+        elif isinstance(s, ast.AugAssign) and dotted(s.target) == var:
+            steps.append((cfg.node_of(s), "merge", _mapping_parts(s.value), s) if isinstance(s.op, ast.BitOr) else (cfg.node_of(s), "merge", [None], s))
+        elif isinstance(s, ast.Expr) and isinstance(s.value, ast.Call) and isinstance(s.value.func, ast.Attribute) and dotted(s.value.func.value) == var:
+            c = s.value
+            if c.func.attr == "update" and len(c.args) <= 1 and not any(isinstance(a_, ast.Starred) for a_ in c.args):
+                parts = [p_ for a_ in c.args for p_ in _mapping_parts(a_)]
+                for k in c.keywords:
+                    parts += _mapping_parts(k.value) if k.arg is None else [None]
+                steps.append((cfg.node_of(s), "merge", parts, s))
+            elif c.func.attr in ("update", "setdefault", "pop", "popitem", "clear", "__setitem__", "__delitem__", "__ior__"):
+                steps.append((cfg.node_of(s), "merge", [None], s))
+        elif isinstance(s, (ast.Assign, ast.AugAssign, ast.Delete)):
+            tg = s.targets if isinstance(s, (ast.Assign, ast.Delete)) else [s.target]
+            if any(isinstance(x, ast.Subscript) and dotted(x.value) == var for t in tg for x in ast.walk(t)):
+                steps.append((cfg.node_of(s), "merge", [None], s))
+    steps = [x for x in steps if x[0] != u and cfg.reachable(x[0], u)]
+    sure = [x for x in steps if cfg.dominates(x[0], u)]
+    sure.sort(key=lambda x: sum(1 for y in sure if y is not x and cfg.dominates(y[0], x[0])))
+    maybe = [x for x in steps if not cfg.dominates(x[0], u)]
+    def weak(step) -> list[str]:
+        out = []
+        for p_ in step[2]:
+            got = ["?"] if p_ is None or (isinstance(p_, ast.Name) and p_.id == var) else _sources(f, p_)
+            out += ["local" if g_ == "local" else "?" for g_ in got]
+        return out
+
+    # a step that runs on some paths only takes effect after the last sure step that can precede it
+    after: dict[int, list] = {}
+    for m in maybe:
+        prev = [i for i, x in enumerate(sure) if cfg.reachable(x[0], m[0])]
+        after.setdefault(max(prev) if prev else -1, []).append(m)
+    order: list[str] = [g_ for m in after.get(-1, []) for g_ in weak(m)]
+    first = None
+    for i, (n, kind, parts, s) in enumerate(sure):
+        srcs: list[str] = []
+        for p_ in parts:
+            if p_ is None:
+                srcs.append("?")
+            elif isinstance(p_, ast.Name) and p_.id == var:
+                srcs += order
+            else:
+                srcs += _sources(f, p_)
+        if kind == "assign":
+            first = first or s
+            order = srcs
+        else:
+            order = order + srcs
+        order = order + [g_ for m in after.get(i, []) for g_ in weak(m)]
+    if not sure:
+        return ["?"], None
+    return order, first
 
 
 def check_adapter_sizes(ctx: Ctx) -> None:
@@ -500,20 +769,20 @@ def check_adapter_sizes(ctx: Ctx) -> None:
     otherwise be sliced with the stale size)."""
     f = ctx.index.method(_DAD, "DisciplineAdapter", "__create_input_names_to_slices")
     con = cname(_DAD, "DisciplineAdapter", "__create_input_names_to_slices")
-    first = [s_ for s_ in stmts_of(f) if isinstance(s_, ast.Assign) and isinstance(s_.targets[0], ast.Name) and ("get_input_data" in norm_stmt(s_.value) or "defaults" in norm_stmt(s_.value))]
-    ctx.need(len(first) >= 1, "__create_input_names_to_slices: the mapping the sizes are computed from was not found")
-    var = first[0].targets[0].id
-    updates = [c for c in walk_body(f) if isinstance(c, ast.Call) and isinstance(c.func, ast.Attribute) and c.func.attr == "update" and dotted(c.func.value) == var]
-    cfg = cfg_of(f)
-    order = [("init", norm_stmt(first[0].value))] + [("update", norm_stmt(u.args[0]) if u.args else "") for u in sorted(updates, key=lambda u: (u.lineno, u.col_offset))]
-    if isinstance(first[0].value, ast.Dict):  # {**a, **b}
-        order = [("init", norm_stmt(v_)) for k_, v_ in zip(first[0].value.keys, first[0].value.values) if k_ is None] + order[1:]
-    srcs = ["defaults" if "defaults" in t else ("local" if "get_input_data" in t or "io.data" in t else "?") for _, t in order]
-    ok = "defaults" in srcs and (("local" not in srcs) or max(i for i, s_ in enumerate(srcs) if s_ == "defaults") > max(i for i, s_ in enumerate(srcs) if s_ == "local"))
-    ctx.ob("17.7-adapter-sizes", con, ok, f"the sizes are computed from {srcs}: the default inputs must take precedence over the data left by a previous execution", node=first[0], stmt="defaults override the previous local data")
     use = [c for c in walk_body(f) if isinstance(c, ast.Call) and last_attr(c) == "compute_names_to_sizes"]
-    ok = len(use) == 1 and var in names_in(use[0])
-    ctx.ob("17.7-adapter-sizes", con, ok, "the sizes are computed from that mapping", node=(use or [f])[0], stmt="compute_names_to_sizes(mapping)")
+    ctx.need(len(use) >= 1, "__create_input_names_to_slices: the computation of the sizes (compute_names_to_sizes) was not found")
+    data = arg_or_kw(use[0], 1, "data")
+    ctx.need(data is not None, "__create_input_names_to_slices: the mapping the sizes are computed from was not found")
+    # the mapping is a local completed step by step, or a merge written in place
+    first = None
+    if isinstance(data, ast.Name):
+        srcs, first = _merged_into(f, data.id, use[0])
+    if first is None:
+        srcs = [s_ for p_ in _mapping_parts(data) for s_ in _sources(f, p_)]
+    ok = "defaults" in srcs and (("local" not in srcs) or max(i for i, s_ in enumerate(srcs) if s_ == "defaults") > max(i for i, s_ in enumerate(srcs) if s_ == "local"))
+    ctx.ob("17.7-adapter-sizes", con, ok, f"the sizes are computed from {srcs}: the default inputs must take precedence over the data left by a previous execution", node=first or use[0], stmt="defaults override the previous local data")
+    ok = len(use) == 1
+    ctx.ob("17.7-adapter-sizes", con, ok, "the sizes are computed from that mapping", node=use[0], stmt="compute_names_to_sizes(mapping)")
 
 
 def run(ctx: Ctx) -> None:
@@ -560,6 +829,20 @@ WITNESSES = [
     {"name": "columns-in-sorted-order", "file": CC, "old": "x_names = self.__formulation.get_optim_variable_names()", "new": "x_names = sorted(self.__formulation.design_space.variable_names)", "expect": "17.3"},
     {"name": "mask-positions-one-too-many", "file": BF, "old": "arange(i_min, i_max)", "new": "range(i_min, i_max + 1)", "expect": "17.4"},
     {"name": "mask-positions-of-other-variable", "file": BF, "old": "                i_min, i_max, loc_size = indices[key]", "new": "                i_min, i_max, loc_size = indices[all_data_names[0]]", "expect": "17.4"},
+    {"name": "sizes-display-local-data-last", "file": _DAD, "old": "        input_data = self.__discipline.io.get_input_data()\n        input_data.update(self.__discipline.io.input_grammar.defaults)\n", "new": "        input_data = {**self.__discipline.io.input_grammar.defaults, **self.__discipline.io.get_input_data()}\n", "expect": "17.7"},
+    {"name": "sizes-local-data-copied-over-the-defaults", "file": _DAD, "old": "        input_data = self.__discipline.io.get_input_data()\n        input_data.update(self.__discipline.io.input_grammar.defaults)\n", "new": "        input_data = dict(self.__discipline.io.input_grammar.defaults)\n        for name, value in self.__discipline.io.get_input_data().items():\n            input_data[name] = value\n", "expect": "17.7"},
+    {"name": "sizes-defaults-only-complete", "file": _DAD, "old": "        input_data = self.__discipline.io.get_input_data()\n        input_data.update(self.__discipline.io.input_grammar.defaults)\n", "new": "        input_data = self.__discipline.io.get_input_data()\n        for name, value in self.__discipline.io.input_grammar.defaults.items():\n            input_data.setdefault(name, value)\n", "expect": "17.7"},
+    {"name": "sizes-union-local-data-last", "file": _DAD, "old": "        input_data = self.__discipline.io.get_input_data()\n        input_data.update(self.__discipline.io.input_grammar.defaults)\n", "new": "        input_data = self.__discipline.io.input_grammar.defaults | self.__discipline.io.get_input_data()\n", "expect": "17.7"},
+    {"name": "sizes-local-data-merged-again", "file": _DAD, "old": "        input_data = self.__discipline.io.get_input_data()\n        input_data.update(self.__discipline.io.input_grammar.defaults)\n", "new": "        input_data = self.__discipline.io.get_input_data()\n        input_data.update(self.__discipline.io.input_grammar.defaults)\n        if self.input_names:\n            input_data.update(self.__discipline.io.get_input_data())\n", "expect": "17.7"},
+    {"name": "sizes-defaults-merged-into-another-mapping", "file": _DAD, "old": "        input_data = self.__discipline.io.get_input_data()\n        input_data.update(self.__discipline.io.input_grammar.defaults)\n", "new": "        input_data = self.__discipline.io.get_input_data()\n        dict(input_data).update(self.__discipline.io.input_grammar.defaults)\n", "expect": "17.7"},
+    {"name": "kept-all-the-inputs", "file": _DO, "old": "        kept_variable_names = set(all_input_names).intersection(design_space)\n", "new": "        kept_variable_names = set(all_input_names)\n", "expect": "17.6"},
+    {"name": "kept-inputs-or-design-variables", "file": _DO, "old": "        kept_variable_names = set(all_input_names).intersection(design_space)\n", "new": "        kept_variable_names = set(all_input_names).union(design_space)\n", "expect": "17.6"},
+    {"name": "kept-inputs-that-are-not-design-variables", "file": _DO, "old": "        kept_variable_names = set(all_input_names).intersection(design_space)\n", "new": "        kept_variable_names = {name for name in all_input_names if name not in design_space}\n", "expect": "17.6"},
+    {"name": "kept-narrowed-on-one-path-only", "file": _DO, "old": "        kept_variable_names = set(all_input_names).intersection(design_space)\n", "new": "        kept_variable_names = set(all_input_names)\n        if self.disciplines:\n            kept_variable_names.intersection_update(design_space)\n", "expect": "17.6"},
+    {"name": "kept-narrowed-then-widened", "file": _DO, "old": "        kept_variable_names = set(all_input_names).intersection(design_space)\n", "new": "        kept_variable_names = set(all_input_names)\n        kept_variable_names.intersection_update(design_space)\n        kept_variable_names.update(all_input_names)\n", "expect": "17.6"},
+    {"name": "kept-further-restricted", "file": _DO, "old": "        kept_variable_names = set(all_input_names).intersection(design_space)\n", "new": "        kept_variable_names = set(all_input_names).intersection(design_space).intersection(self.optimization_problem.objective.input_names)\n", "expect": "17.6"},
+    {"name": "equilibrium-values-of-the-current-point", "file": IDF, "old": "            value = output[name]\n", "new": "            value = current_x[name]\n", "expect": "17.5"},
+    {"name": "equilibrium-items-of-another-name", "file": IDF, "old": "        for name in self.all_couplings:\n            value = output[name]\n", "new": "        equilibrium = {name: output[self.all_couplings[0]] for name in self.all_couplings}\n        for name, value in equilibrium.items():\n", "expect": "17.5"},
 ]
 TWINS = [
     {"name": "same-name-test-mirrored", "file": CC, "old": "                    if x_i == out:", "new": "                    if out == x_i:"},
@@ -569,4 +852,10 @@ TWINS = [
     {"name": "jacobian-factor-column-by-none", "file": CC, "old": "self.__norm_fact[:, newaxis]", "new": "self.__norm_fact[:, None]"},
     {"name": "identity-sized-by-the-output", "file": CC, "old": "eye(x_len)", "new": "eye(o_len)"},
     {"name": "dv-indices-single-cursor", "file": BF, "old": "        start = end = 0\n        sizes = self.variable_sizes\n        names_to_indices = {}\n        for name in names:\n            size = sizes[name]\n            end += size\n            names_to_indices[name] = (start, end, size)\n            start = end\n", "new": "        start = 0\n        sizes = self.variable_sizes\n        names_to_indices = {}\n        for name in names:\n            size = sizes[name]\n            names_to_indices[name] = (start, start + size, size)\n            start += size\n"},
+    {"name": "sizes-defaults-copied-one-by-one", "file": _DAD, "old": "        input_data = self.__discipline.io.get_input_data()\n        input_data.update(self.__discipline.io.input_grammar.defaults)\n", "new": "        input_data = self.__discipline.io.get_input_data()\n        for name, value in self.__discipline.io.input_grammar.defaults.items():\n            input_data[name] = value\n"},
+    {"name": "sizes-update-by-keywords", "file": _DAD, "old": "        input_data.update(self.__discipline.io.input_grammar.defaults)\n", "new": "        input_data.update(**self.__discipline.io.input_grammar.defaults)\n"},
+    {"name": "sizes-rebound-union", "file": _DAD, "old": "        input_data.update(self.__discipline.io.input_grammar.defaults)\n", "new": "        input_data = input_data | self.__discipline.io.input_grammar.defaults\n"},
+    {"name": "kept-by-comprehension", "file": _DO, "old": "        kept_variable_names = set(all_input_names).intersection(design_space)\n", "new": "        kept_variable_names = [name for name in design_space if name in all_input_names]\n"},
+    {"name": "kept-narrowed-in-place", "file": _DO, "old": "        kept_variable_names = set(all_input_names).intersection(design_space)\n", "new": "        kept_variable_names = set(all_input_names)\n        kept_variable_names.intersection_update(design_space)\n"},
+    {"name": "equilibrium-pairs-first", "file": IDF, "old": "        for name in self.all_couplings:\n            value = output[name]\n", "new": "        for name, value in [(c, output[c]) for c in self.all_couplings]:\n"},
 ]
